@@ -796,6 +796,11 @@ class NP:
                 K2 = src[2]
                 return STensor((src[0], AB) + tuple(src[3:]), lambda t0, i, *r: tf.fn(t0, binop('//', i, K2), binop('%', i, K2), *r), t.dtype, view_of=t)
             return STensor((src[0], AB) + tuple(src[3:]), lambda t0, i, *r: tf.fn(t0, uq(to_z3(i)), ur(to_z3(i)), *r), t.dtype, view_of=t)
+        # insert a unit axis after the leading one: (A, r..) -> (A|-1, 1, r..)
+        if len(src) >= 1 and len(shape) == len(src) + 1 and not is_sym(shape[1]) and shape[1] == 1 and \
+                ((not is_sym(shape[0]) and shape[0] == -1) or V.dim_eq(shape[0], src[0]) is True) and \
+                all(V.dim_eq(a, b) is True for a, b in zip(shape[2:], src[1:])):
+            return STensor((src[0], 1) + tuple(src[1:]), lambda a, b, *r: tf.fn(a, *r), t.dtype, view_of=t)
         # split a merged leading dim
         if len(shape) == len(src) + 1 and all(V.dim_eq(a, b) is True for a, b in zip(shape[2:], src[1:])):
             A, B = shape[0], shape[1]
@@ -884,6 +889,23 @@ class NP:
             return u_.sqrt(interp.ctx, tot)
         shape = tuple(a.shape[:-1]) + ((1,) if keepdims else ())
         return STensor(shape, fn, 'real')
+
+    def f_diff(self, interp, line, a, n=1, axis=-1, prepend=None):
+        a = as_tensor(a)
+        if n != 1 or (axis % a.ndim) != a.ndim - 1:
+            raise Unsupported('np.diff form')
+        af = a.fn
+        interp.ctx.use('numpy.diff(a, prepend=p): out[..,0] = a[..,0]-p, out[..,t] = a[..,t]-a[..,t-1]')
+        if prepend is None:
+            shape = tuple(a.shape[:-1]) + (binop('-', a.shape[-1], 1),)
+            return STensor(shape, lambda *i: binop('-', af(*i[:-1], binop('+', i[-1], 1)), af(*i)), a.dtype)
+        p = prepend
+
+        def fn(*i):
+            t = i[-1]
+            prev = z_ite(cmpop('==', t, 0), p, af(*i[:-1], z_ite(cmpop('==', t, 0), 0, binop('-', t, 1))))
+            return binop('-', af(*i), prev)
+        return STensor(a.shape, fn, 'real' if a.dtype == 'real' else a.dtype)
 
     def f_shape(self, interp, line, a):
         return tuple(as_tensor(a).shape)
